@@ -48,7 +48,9 @@ def depfile_path(e):
 
 
 def rspfile_path(e):
-    return key(e) + ".rsp" if e.get('rsp') is not None else None
+    # e['rspdir']: a directory nothing creates (ninja does not create it either: writing the response file fails, the
+    # statement cannot be started)
+    return e.get('rspdir', '') + key(e) + ".rsp" if e.get('rsp') is not None else None
 
 
 def is_restat(e):
